@@ -14,6 +14,7 @@ import (
 	"os"
 	"os/exec"
 	"path/filepath"
+	"regexp"
 	"strconv"
 	"strings"
 	"time"
@@ -26,6 +27,8 @@ type traceState struct {
 }
 
 const markDir = "/nonexistent-vmark"
+
+var retRe *regexp.Regexp // compiled on first native use (package initialisers also run under the engine)
 
 // TraceStart begins journalling (native: attach strace to this process).
 func (f *FS) TraceStart() {
@@ -107,6 +110,11 @@ func (f *FS) TraceStop() {
 	f.tr.cmd.Process.Signal(os.Interrupt)
 	f.tr.cmd.Wait()
 	f.parseTrace(f.tr.log)
+	if keep := os.Getenv("VERIF_KEEP_TRACE"); keep != "" {
+		if b, err := os.ReadFile(f.tr.log); err == nil {
+			os.WriteFile(keep, b, 0o666)
+		}
+	}
 	os.Remove(f.tr.log)
 	f.tr = nil
 }
@@ -173,6 +181,9 @@ func (f *FS) parseTrace(logPath string) {
 		panic(err)
 	}
 	defer fh.Close()
+	if retRe == nil {
+		retRe = regexp.MustCompile(`\)\s+= `)
+	}
 	sc := bufio.NewScanner(fh)
 	sc.Buffer(make([]byte, 1<<20), 64<<20)
 	pending := map[string]string{} // pid -> unfinished prefix
@@ -213,13 +224,18 @@ func (f *FS) parseTrace(logPath string) {
 			delete(pending, pid)
 		}
 		op := strings.IndexByte(rest, '(')
-		eq := strings.LastIndex(rest, ") = ")
-		if op < 0 || eq < 0 {
+		// "name(args)   = ret ..." - strace pads short calls with spaces before the equals sign
+		loc := retRe.FindAllStringIndex(rest, -1)
+		if op < 0 || len(loc) == 0 {
 			continue
 		}
+		eq := loc[len(loc)-1][0]
 		name := rest[:op]
+		if eq < op {
+			continue
+		}
 		args := splitArgs(rest[op+1 : eq])
-		retS := strings.Fields(rest[eq+4:])
+		retS := strings.Fields(rest[loc[len(loc)-1][1]:])
 		ret := int64(-1)
 		if len(retS) > 0 {
 			ret, _ = strconv.ParseInt(retS[0], 0, 64)
